@@ -293,7 +293,7 @@ func (r *refEval) paramFilter(f ParamFilter, p Prop) tri {
 	// Multi-valued parameter: first vs any value.
 	var res tri
 	for i, v := range vals {
-		x := r.textVerdict(*f.Text, []string{v})
+		x := r.textVerdict(*f.Text, [][]string{{v}})
 		if i == 0 {
 			res = x
 		} else if x != res {
@@ -307,29 +307,37 @@ func (r *refEval) paramFilter(f ParamFilter, p Prop) tri {
 	return tand(present, res)
 }
 
-// textVerdict: substring test, inverted by negate-condition. The candidates
-// are the admissible spellings of the value; comparison is tried octet-wise
-// and under ASCII case folding (RFC 4791's default collation i;ascii-casemap
-// vs. the statement's plain "substring").
-func (r *refEval) textVerdict(tm TextMatch, cands []string) tri {
-	if cands == nil {
+// textVerdict: substring test on the property (or parameter) value, inverted
+// by negate-condition (RFC 4791 9.7.5). Each reading is a set of haystacks and
+// holds iff some haystack of the set contains the text; comparison is tried
+// octet-wise and under ASCII case folding (RFC 4791's default collation
+// i;ascii-casemap vs. the statement's plain "substring"). A verdict is given
+// only if every reading agrees.
+func (r *refEval) textVerdict(tm TextMatch, readings [][]string) tri {
+	if readings == nil {
 		return triU
 	}
 	seenT, seenF := false, false
-	for _, c := range cands {
-		if strings.Contains(c, tm.Text) {
-			seenT = true
-		} else {
-			seenF = true
+	for _, hay := range readings {
+		exact, folded := false, false
+		for _, c := range hay {
+			if strings.Contains(c, tm.Text) {
+				exact = true
+			}
+			if strings.Contains(asciiFold(c), asciiFold(tm.Text)) {
+				folded = true
+			}
 		}
-		if strings.Contains(asciiFold(c), asciiFold(tm.Text)) {
-			seenT = true
-		} else {
-			seenF = true
+		for _, b := range []bool{exact, folded} {
+			if b {
+				seenT = true
+			} else {
+				seenF = true
+			}
 		}
 	}
 	if seenT && seenF {
-		r.flagAmb("text readings disagree (escaping / case / list item)")
+		r.flagAmb("text readings disagree (escaping / case / list item boundary)")
 		return triU
 	}
 	v := seenT
@@ -339,14 +347,22 @@ func (r *refEval) textVerdict(tm TextMatch, cands []string) tri {
 	return tbool(v)
 }
 
-// propTextCandidates lists the admissible texts of a property value: the raw
-// value, the value with RFC 5545 TEXT escapes undone, and each item of the
-// value read as a comma-separated TEXT list. nil means "no reading is safe"
-// (malformed escape).
-func propTextCandidates(raw string, r *refEval) []string {
-	cands := []string{raw}
+// propTextCandidates lists the admissible readings of "the property value"
+// for a text-match:
+//
+//	(1) the raw value as stored in the iCalendar stream,
+//	(2) the whole value with the RFC 5545 TEXT escapes undone,
+//	(3) the value as a comma-separated list of TEXT items (CATEGORIES,
+//	    RESOURCES, ...): the text occurs in SOME item (unescaped).
+//
+// A text lying wholly inside one item, away from any escape, is contained
+// under all three, whichever item it is; a text spanning an escape sequence
+// or an item boundary is contained under some readings only (don't care).
+// "Only the first item" is not a reading of "the property value". nil means
+// "no reading is safe" (malformed escape).
+func propTextCandidates(raw string, r *refEval) [][]string {
 	if !strings.ContainsAny(raw, "\\,") {
-		return cands
+		return [][]string{{raw}}
 	}
 	var whole strings.Builder
 	var item strings.Builder
@@ -382,9 +398,7 @@ func propTextCandidates(raw string, r *refEval) []string {
 		}
 	}
 	items = append(items, item.String())
-	cands = append(cands, whole.String())
-	cands = append(cands, items...)
-	return cands
+	return [][]string{{raw}, {whole.String()}, items}
 }
 
 // --- time values -------------------------------------------------------------
